@@ -14,6 +14,13 @@ schedule flag `xdev` makes renames from TMPDIR into the cache directory fail wit
 the publish step takes its copy fall-back (non-atomic, in place);
 (3) an oracle written from the property statement is evaluated on the real results.
 
+Inputs: corpus; directed schedule families whose step counts are MEASURED on the real code (late publish of an
+old parse by a held-back store + a second store + a loader; a version check stopped after each of its system
+calls followed by a second scanner of the new version) so that they keep aiming at the same windows when an
+operation gains or loses a system call; interleavings enumerated by the model; uniformly sampled merges; random
+schedules.  Source histories: modification stamped with the current time (with / without a clock tick) and
+replacement by a file that carries a given, typically older, mtime.
+
 Only the public surface of giscanner.cachestore is used (CacheStore(), .store, .load); the
 scanner version is steered through sys.argv[0]'s mtime (an input of the version hash).
 """
@@ -1422,7 +1429,8 @@ def run(ctx):
                 'crash of a process, source modification with or without a clock tick, replacement of the source by a '
                 'file carrying a given (older) mtime, tick). Exhaustive part: all '
                 'maximal interleavings enumerated by the model for the listed scenarios, each followed by a '
-                'sequential observer load; random part: up to three concurrent operations + a late load. Every case '
+                'sequential observer load; directed part: two schedule families with step counts measured on the real '
+                'code; random part: up to three concurrent operations + a late load. Every case '
                 'is executed on the real CacheStore under the controlled scheduler and by the Lean step function, '
                 'compared on system-call trace, per-operation outcome, load results (value, mtimes seen, version '
                 'interval), final entry / stamp / temp files; the statement oracle judges the real results. '
